@@ -47,6 +47,9 @@ pub struct RunOut {
     pub sim_us: i64,
     /// a harness-level problem (not a property violation)
     pub harness_error: Option<String>,
+    /// the run took the real-time-dependent path of the scheduler (a thread blocked on an OS
+    /// primitive the simulator does not know): it is exempt from the determinism comparison
+    pub timing_dependent: bool,
 }
 
 impl RunOut {
